@@ -53,6 +53,7 @@ lyplg_type_store_date_and_time(const struct ly_ctx *ctx, const struct lysc_type 
         struct ly_err_item **err)
 {
     LY_ERR ret = LY_SUCCESS;
+    struct lysc_type_str *type_dat = (struct lysc_type_str *)type;
     struct lyd_value_date_and_time *val;
     uint32_t i;
     char c;
@@ -105,6 +106,17 @@ lyplg_type_store_date_and_time(const struct ly_ctx *ctx, const struct lysc_type 
     if (ly_time_str2time(value, &val->time, &val->fractions_s)) {
         ret = ly_err_new(err, LY_EVALID, 0, NULL, NULL, "%s", ly_last_logmsg());
         goto cleanup;
+    }
+
+    if (!(options & LYPLG_TYPE_STORE_ONLY)) {
+        /* the conversion is lenient (separators, characters after the zone), check the restrictions of the type, too */
+        if (type_dat->length) {
+            /* there can be only ASCII chars */
+            ret = lyplg_type_validate_range(LY_TYPE_STRING, type_dat->length, value_len, value, value_len, err);
+            LY_CHECK_GOTO(ret, cleanup);
+        }
+        ret = lyplg_type_validate_patterns(type_dat->patterns, value, value_len, err);
+        LY_CHECK_GOTO(ret, cleanup);
     }
 
     if (!strncmp(((char *)value + value_len) - 6, "-00:00", 6)) {
